@@ -28,7 +28,8 @@ RULE = (
     "requested cluster all eligible spikes if eligible <= count or count None/<=0, else exactly "
     "count. (model) generated datasets with more than 20 chunks and a sample rate different from 1: the "
     "selection written by TemplateModel.save_spikes_subset_waveforms is checked against the same "
-    "constraints. Non-trivial: a spike exactly on a bound, or a stride >1 that does not divide the "
+    "constraints. (big) hand-made clusters of 30 000 spikes (thorough: up to 1.5 million) of which "
+    "a few dozen are eligible. Non-trivial: a spike exactly on a bound, or a stride >1 that does not divide the "
     "number of chunks, or a cluster with more eligible spikes than requested.")
 ASSUMPTIONS = ['np.random.choice(replace=False) returns distinct elements of its input']
 
@@ -83,10 +84,36 @@ def _case(draw):
             'array_bounds': draw(st.booleans())}
 
 
+def _big_cases(th):
+    # clusters of tens of thousands of spikes of which only a few are eligible
+    for i, n in enumerate([30000] + ([10001, 200000, 1500000] if th else [])):
+        yield {'k': 'big', 'n': n, 'seed': 17 + i}
+
+
+def _expand_big(par):
+    n = par['n']
+    rs = np.random.RandomState(par['seed'])
+    times = np.sort(rs.randint(0, 4 * n, size=n)).tolist()
+    clusters = [0] * n
+    for i in rs.randint(0, n, size=50):
+        clusters[int(i)] = [1, 3][int(i) % 2]
+    bounds = list(range(0, 4 * n + 1, n // 10))
+    sparse = sorted(set(rs.randint(0, n, size=65).tolist()))
+    calls = [{'n': 100, 'cids': [0, 3], 'sc': False, 'ss': sparse},
+             {'n': 1000, 'cids': [0], 'sc': True, 'ss': sparse},
+             {'n': 5, 'cids': [1, 0], 'sc': True, 'ss': None},
+             {'n': 7, 'cids': [0], 'sc': False, 'ss': sparse},
+             {'n': None, 'cids': [0, 1, 3], 'sc': True, 'ss': list(range(0, n, 7))}]
+    return {'bounds': bounds, 'times': times, 'clusters': clusters, 'nkept': 3, 'calls': calls,
+            'np_seed': par['seed'], 'array_bounds': True}
+
+
 def drivers(tier):
     th = tier == 'thorough'
     from . import c17_model
-    return [dict(kind='hyp', name='selector', strategy=_case(), examples=300000 if th else 25000),
+    return [dict(kind='enum', name='big', exhaustive=False,
+                 bound='one cluster of 30 000 (thorough: up to 1 500 000) spikes, few eligible',
+                 cases=lambda: _big_cases(th)),dict(kind='hyp', name='selector', strategy=_case(), examples=300000 if th else 25000),
             dict(kind='hyp', name='model', strategy=c17_model.strategy(),
                  examples=10000 if th else 1000)]
 
@@ -95,6 +122,8 @@ def check(case):
     if case.get('k') == 'model':
         from . import c17_model
         return c17_model.check(case)
+    if case.get('k') == 'big':
+        case = _expand_big(case)
     bounds, times, clusters = case['bounds'], case['times'], case['clusters']
     nkept = case['nkept']
     n = len(times)
@@ -137,6 +166,7 @@ def check(case):
         require(all(y > x for x, y in zip(o, o[1:])), 'selection not strictly increasing',
                 key='sel-increasing', observed=o)
         req = set(call['cids'])
+        ss_set = None if call['ss'] is None else set(call['ss'])
         require(all(0 <= i < n and clusters[i] in req for i in o),
                 'selected spike outside the requested clusters', key='sel-cluster', observed=o)
         if call['sc']:
@@ -144,12 +174,12 @@ def check(case):
             require(not bad, 'selected spike outside the kept chunks', key='sel-chunk',
                     observed=(bad, [times[i] for i in bad]), expected=exp_ck)
         if call['ss'] is not None:
-            require(set(o) <= set(call['ss']), 'selected spike outside subset_spikes',
+            require(set(o) <= ss_set, 'selected spike outside subset_spikes',
                     key='sel-subset', observed=o, expected=call['ss'])
         for c in req:
             elig = [i for i in spc.get(c, [])
                     if (not call['sc'] or in_kept(times[i])) and
-                    (call['ss'] is None or i in set(call['ss']))]
+                    (ss_set is None or i in ss_set)]
             got = [i for i in o if clusters[i] == c]
             if call['n'] is None or call['n'] <= 0 or len(elig) <= call['n']:
                 require(got == elig, 'not all eligible spikes of a cluster returned',
@@ -166,6 +196,8 @@ def classify(case, info):
     if case.get('k') == 'model':
         from . import c17_model
         return c17_model.classify(case, info)
+    if case.get('k') == 'big':
+        return ['big:%d-spikes-in-one-cluster' % case['n'], 'sparse-eligibility'], True
     labels = []
     nt = False
     bs = set(case['bounds'])
